@@ -257,7 +257,11 @@ def run(rep, tier, seed):
     # corpus: encodings whose contents begin with (or are nothing but) an end-of-octets marker of an inner element -
     # an untagged CHOICE whose chosen alternative is an empty constructed value in the indefinite form, also nested
     from harness import sexp_types as _st
-    for ts, vs in [('(choice (r (seqof int)) (r int))', '(ch 0 (of))'),
+    for ts, vs in [('(tag e c 3 (str 24))', '(s 32303137303830313132303131325a)'),            # explicitly tagged time values, every mode
+                   ('(tag e c 0 (str 23))', '(s 3137303830313132303131325a)'),
+                   ('(seq (r (tag e c 0 (str 23))) (r int))', '(seq (s 3137303830313132303131325a) (i 5))'),
+                   ('(set (r (tag e a 1 (str 24))) (r (tag i c 2 (str 24))))', '(seq (s 32303137303830313132303131325a) (s 32303137303830313132303131325a))'),
+                   ('(choice (r (seqof int)) (r int))', '(ch 0 (of))'),
                    ('(choice (r (tag i c 3 (seq (o int)))) (r bool))', '(ch 0 (seq absent))'),
                    ('(choice (r (setof bool)) (r (tag e c 1 (seqof int))))', '(ch 0 (of))'),
                    ('(choice (r (tag e c 1 (seqof int))) (r null))', '(ch 0 (of))'),
